@@ -182,7 +182,7 @@ def parse_out(path):
             name = t[2]
             if name in ("lacon_in", "lacon_out"):
                 cur["ev"].append((name, int(t[3]), _fl(t[4]), [_fl(x) for x in t[5:]]))
-            elif name in ("ge_in", "ge_out"):
+            elif name in ("ge_in", "ge_out", "fe_in", "fe_out", "fs_in", "fs_out"):
                 cur["ev"].append((name, int(t[3]), [_fl(x) for x in t[4:]]))
             elif name == "lacon_v":
                 cur["ev"].append((name, [_fl(x) for x in t[3:]]))
